@@ -945,7 +945,7 @@ func (c *FnCtx) loopHead(fr *Frame, li *loopInfo, st *State) {
 	// ordinary invariant (checked on entry and on every back edge), generated so that contracts need not repeat it.
 	li.frameComps = nil
 	if c.spec != nil && c.spec.HasMod {
-		allowed := c.eng.patternMods(c, c.spec.Modifies)
+		allowed := c.eng.patternMods(c, c.specModPatterns(c.fn, c.spec))
 		var ks []string
 		if mods.all {
 			ks = append(ks, c.eng.compOrder...)
@@ -1380,7 +1380,7 @@ func (c *FnCtx) funcMods(fn *ssa.Function, m *modSet, depth int) {
 		return
 	}
 	if spec := c.eng.specOf(fn); spec != nil && spec.HasMod {
-		mm := c.eng.patternMods(c, spec.Modifies)
+		mm := c.eng.patternMods(c, c.specModPatterns(fn, spec))
 		mm.alloc = true
 		c.eng.modCache[fn] = mm
 		m.union(mm)
